@@ -25,8 +25,6 @@ CLAIMED = {
 # id -> reason (properties not claimed). PENDING entries are planned in DESIGN.md but the
 # rule set is not yet silent-and-sound on the unchanged tree, so they are not claimed.
 NOT_APPLICABLE = {
- "C13": "Unicode/UTF-16 round trip is a statement about values of code points and surrogate arithmetic over all scalar values; no structural clause whose breakage is visible in code shape.",
- "C14": "Date formatting/parsing equality over years 0-9999 and offsets is numeric/string-value behaviour; not decidable from code shape.",
  "C15": "Filter encode/decode identity over all byte strings and parameter sets is value behaviour of compression codecs.",
  "C17": "Agreement with the PNG/TIFF predictor specifications is numeric behaviour.",
  "C19": "Write/read graph isomorphism quantifies over document contents.",
